@@ -446,7 +446,8 @@ class C13(Machine):
         cfg = plan["config"]
         text = plan["initial"]["text"]
         dt = cfg["data_type"]
-        cls = {"dna": dendropy.DnaCharacterMatrix, "protein": dendropy.ProteinCharacterMatrix, "standard": dendropy.StandardCharacterMatrix}[dt]
+        cls = {"dna": dendropy.DnaCharacterMatrix, "protein": dendropy.ProteinCharacterMatrix, "standard": dendropy.StandardCharacterMatrix,
+               "continuous": dendropy.ContinuousCharacterMatrix}[dt]
         try:
             ref_m = cls.get(data=text, schema="nexus")
         except Exception as e:
